@@ -43,6 +43,13 @@ def apply_edits(d, m):
         path = os.path.join(d, e[0])
         s = open(path).read()
         old, new = e[1], e[2]
+        if isinstance(old, tuple) and old[0] == 're':
+            import re
+            s2, n = re.subn(old[1], new, s)
+            if n < 1:
+                raise SystemExit('mutant %s: regex %r matches nothing in %s' % (m['name'], old[1], e[0]))
+            open(path, 'w').write(s2)
+            continue
         cnt = s.count(old)
         if cnt != 1:
             raise SystemExit('mutant %s: pattern occurs %d times in %s: %r' % (m['name'], cnt, e[0], old[:60]))
@@ -55,7 +62,11 @@ def diff_of(m):
         out.append('# reverse of %s\n' % rp)
     for e in m['edits']:
         s = open(os.path.join(REPO, e[0])).read()
-        t = s.replace(e[1], e[2])
+        if isinstance(e[1], tuple):
+            import re
+            t = re.sub(e[1][1], e[2], s)
+        else:
+            t = s.replace(e[1], e[2])
         out += list(difflib.unified_diff(s.splitlines(True), t.splitlines(True), 'a/' + e[0], 'b/' + e[0]))
     return ''.join(out)
 
